@@ -6,6 +6,8 @@ import FastorModel.Driver.Config
 import FastorModel.Driver.Simd
 import FastorModel.Driver.Footprint
 import FastorModel.Driver.ViewWrite
+import FastorModel.Driver.Linalg
+import FastorModel.Driver.Permute
 /-
   `fmodel`: line-protocol driver.  Reads one case per line on stdin, prints the model's observables
   for it.  The harness prints the implementation's observables for the same case in the same format.
@@ -29,6 +31,10 @@ def step (line : String) : String :=
   | "aflag" :: rest => runAflag (parseKV rest)
   | "kern3" :: rest => runKern3 (parseKV rest)
   | "vw" :: rest => runVw (parseKV rest)
+  | "inv" :: rest => runInv (parseKV rest)
+  | "permute" :: rest => runPermute (parseKV rest)
+  | "pmeta" :: rest => runPmeta (parseKV rest)
+  | "transpose" :: rest => runTranspose (parseKV rest)
   | _ => "bad-op"
 
 partial def loop (h : IO.FS.Stream) (out : IO.FS.Stream) : IO Unit := do
